@@ -281,6 +281,43 @@ fn diseq_programs(quick: bool) -> Vec<Program> {
     out
 }
 
+/// Hidden finite-domain variables (labelled only by the final witness search, in the iteration
+/// order of the domain store) that a TREE constraint connects to the answer: which witness the
+/// search commits to must not show in the answer.
+fn hidden_fd_tree_programs() -> Vec<Program> {
+    use crate::ast::{Dom, FdKind};
+    let q = T::V(0);
+    let r = T::V(1);
+    let a = T::V(2);
+    let b = T::V(3);
+    let c = T::V(4);
+    let mut out = vec![];
+    let doms2 = G::InFd(vec![a.clone(), b.clone()], Dom::Sparse(vec![1, 2]));
+    let doms3 = G::InFd(vec![a.clone(), b.clone(), c.clone()], Dom::Range(1, 3));
+    let links: Vec<Vec<G>> = vec![
+        vec![G::Neq(q.clone(), a.clone())],
+        vec![G::Neq(q.clone(), T::list(vec![a.clone(), b.clone()]))],
+        vec![G::Neq(T::list(vec![q.clone(), r.clone()]), T::list(vec![a.clone(), b.clone()]))],
+        vec![G::Neq(q.clone(), b.clone()), G::Eq(r.clone(), T::I(7))],
+        vec![G::Neq(T::list(vec![q.clone(), a.clone()]), T::list(vec![T::I(5), b.clone()]))],
+    ];
+    for l in &links {
+        for sym in [G::Fd(FdKind::Diseq, vec![a.clone(), b.clone()]), G::DistinctFd(T::list(vec![a.clone(), b.clone()])), G::Fd(FdKind::Plus, vec![a.clone(), b.clone(), T::I(3)])] {
+            let mut v1 = vec![doms2.clone(), sym.clone()];
+            v1.extend(l.iter().cloned());
+            out.push(Program { nq: 2, body: vec![G::Fresh(vec![2, 3, 4], v1)] });
+            let mut v2: Vec<G> = l.clone();
+            v2.push(sym.clone());
+            v2.push(doms2.clone());
+            out.push(Program { nq: 2, body: vec![G::Fresh(vec![2, 3, 4], v2)] });
+        }
+        let mut v3 = vec![doms3.clone(), G::DistinctFd(T::list(vec![a.clone(), b.clone(), c.clone()]))];
+        v3.extend(l.iter().cloned());
+        out.push(Program { nq: 2, body: vec![G::Fresh(vec![2, 3, 4], v3)] });
+    }
+    out
+}
+
 pub fn run(ctx: &mut Ctx) {
     let quick = ctx.quick();
     let d = if quick { 1 } else { 2 };
@@ -345,6 +382,7 @@ pub fn run(ctx: &mut Ctx) {
         ("c09-fd-t2", fd::tier2(quick), false),
         ("c09-fd-t3", fd::tier3(quick), false),
         ("c09-diseq", diseq_programs(quick), true),
+        ("c09-fd-hidden-tree", hidden_fd_tree_programs(), false),
     ];
     if !quick {
         families.push(("c09-c02e3", c02::e3_programs(true), false));
